@@ -132,6 +132,40 @@ func clsRiskOps(fd *ast.FuncDecl) (string, string, bool) {
 	return low, med, low != "" && med != ""
 }
 
+// clsVisitorsContinue: every function literal passed to walkNode inside fd returns the literal true
+// on every path (the walk is never cut below a visited node).
+func clsVisitorsContinue(fd *ast.FuncDecl) bool {
+	if fd == nil {
+		return false
+	}
+	ok := true
+	ast.Inspect(fd.Body, func(n ast.Node) bool {
+		fl, isLit := n.(*ast.FuncLit)
+		if !isLit {
+			return true
+		}
+		ast.Inspect(fl.Body, func(m ast.Node) bool {
+			if inner, nested := m.(*ast.FuncLit); nested && inner != fl {
+				return false
+			}
+			rs, isRet := m.(*ast.ReturnStmt)
+			if !isRet {
+				return true
+			}
+			if len(rs.Results) != 1 {
+				ok = false
+				return true
+			}
+			if id, isID := rs.Results[0].(*ast.Ident); !isID || id.Name != "true" {
+				ok = false
+			}
+			return true
+		})
+		return false
+	})
+	return ok
+}
+
 func clsCoqStrings(xs []string) string {
 	q := make([]string, len(xs))
 	for i, x := range xs {
@@ -170,6 +204,11 @@ func init() {
 		ac := findFunc(p, "cbo.go", "CBOAnalyzer", "analyzeClass")
 		selfExcl := clsMentions(p, ac, "delete(dependencies, classNode.Name)")
 		fmt.Fprintf(&b, "(* analyzeClass removes the class's own name from its dependency set *)\nDefinition cbo_excludes_self : bool := %v.\n", selfExcl)
+		neverPruned := clsVisitorsContinue(findFunc(p, "cbo.go", "CBOAnalyzer", "analyzeInstantiationAndAccess")) &&
+			clsVisitorsContinue(findFunc(p, "cbo.go", "CBOAnalyzer", "analyzeTypeHints")) &&
+			clsVisitorsContinue(findFunc(p, "cbo.go", "CBOAnalyzer", "collectClasses")) &&
+			clsVisitorsContinue(findFunc(p, "cbo.go", "CBOAnalyzer", "collectImports"))
+		fmt.Fprintf(&b, "(* the visitors of analyzeInstantiationAndAccess, analyzeTypeHints, collectClasses and collectImports always return true: the walk is never cut below a visited node *)\nDefinition cbo_walk_never_pruned : bool := %v.\n", neverPruned)
 		lo, me, ok := clsRiskOps(findFunc(p, "cbo.go", "CBOAnalyzer", "assessRiskLevel"))
 		if !ok {
 			fail("cbo.go: assessRiskLevel comparisons with LowThreshold/MediumThreshold not found")
